@@ -1,7 +1,7 @@
 (* C05 proofs: a layout that meets the boolean obligations round-trips every row, every table of any length, and every
    construct (rows re-sorted into element lists by the builder), up to float32 rounding of the cells.
    PyTables, float32 and python's int()/== are Section variables with the hypotheses listed below. *)
-From Coq Require Import String List Bool Arith Lia Permutation.
+From Coq Require Import String List Bool Arith Lia Permutation ZArith.
 From LNML Require Import Model.H5.
 Import ListNotations.
 Open Scope string_scope.
@@ -608,6 +608,21 @@ Proof.
   { apply (map_rel (write_construct F r32 cval weq g) L (sem32_construct F r32 cval weq) cs nodes Hw One AllSome). }
   rewrite E in PL. apply Permutation_sym in PL. apply Permutation_map_inv in PL as [l3 [E3 P3]].
   apply map_some_inj in E3. subst l3. apply Permutation_sym. exact P3.
+Qed.
+
+Lemma names_eqb_eq a : forall b, names_eqb a b = true -> a = b.
+Proof.
+  induction a as [|x a IH]; intros [|y b] H; simpl in H; try discriminate; auto.
+  apply andb_true_iff in H as [H1 H2]. apply ostr_eqb_eq in H1. subst. f_equal. auto.
+Qed.
+
+Theorem gen_select (g : h5gen) : select_ok g = true ->
+  forall p, In p (g_select g) ->
+  exists wt, select_table Z zc Z.eqb g (sp_kind p) (probe_rows p) = Some wt /\ wt_names wt = sp_names p.
+Proof.
+  unfold select_ok. intros H p Hp. apply andb_true_iff in H as [H _]. rewrite forallb_forall in H. specialize (H p Hp).
+  unfold selprobe_ok in H. destruct (select_table Z zc Z.eqb g (sp_kind p) (probe_rows p)) as [wt|]; [|discriminate].
+  exists wt. split; auto. apply names_eqb_eq. exact H.
 Qed.
 
 Theorem gen_refuse (g : h5gen) : refuse_ok g = true -> forall n, In n must_refuse -> assoc n (g_refusals g) = Some true.
